@@ -8,14 +8,19 @@ FAMILIES = {
     "bpReset": {"quick": 150, "thorough": 3000}, # back-pressure: a frame partly written, then one stream reset/dropped/ended
     "flowBs": {"quick": 200, "thorough": 4000},  # scripted client exhausts the real server's receive windows exactly
     "flowBc": {"quick": 200, "thorough": 4000},  # scripted server drives the real client's send windows (0, negative, up)
+    "conformSend": {"quick": 40, "thorough": 1500},  # TLC simulation runs of MC_Send (x ~3 behaviours each) replayed on the real client
 }
+
+SEND_SLICE = {"module": "MC_Send", "cfg_quick": "MC_Send_quick.cfg", "cfg_thorough": "MC_Send_thorough.cfg",
+              "constants": "2 streams, IW=2 CW=3 MF=2 units, sends {3}, WU {2}, SETTINGS {0,3}, reserve {2}, 1 reset; every interleaving with a frame parked in the codec",
+              "timeout_thorough": 2400, "coverage": False}
 
 WIRE_AB = ["mixA", "mixAd", "bpReset", "flowBs", "flowBc"]
 
 PLAN = {
     "C01": {"rules": ["C01."], "families": WIRE_AB, "slices": [], "level": "exploration",
             "must_hit": ["C01.head", "C01.data", "C01.clean_end", "C01.trailers", "C01.info", "C01.push"]},
-    "C02": {"rules": ["C02."], "families": WIRE_AB, "slices": [], "level": "exploration",
+    "C02": {"rules": ["C02."], "families": WIRE_AB + ["conformSend"], "slices": [SEND_SLICE], "level": "model_checking",
             "must_hit": ["C02.stream_credit", "C02.conn_credit", "C02.exhausts"]},
     "C03": {"rules": ["C03."], "families": WIRE_AB, "slices": [], "level": "exploration",
             "must_hit": ["C03.conn_overcredit", "C03.stream_overcredit"]},
@@ -29,7 +34,7 @@ PLAN = {
     "C14": {"rules": ["C14.", "C12.out_size"], "families": WIRE_AB, "slices": [], "level": "exploration",
             "must_hit": ["C14.settings_ack", "C14.pong", "C14.all_acked"]},
     "C15": {"rules": ["C15."], "families": WIRE_AB, "slices": [], "level": "exploration", "must_hit": []},
-    "C16": {"rules": ["C16."], "families": WIRE_AB, "slices": [], "level": "exploration", "must_hit": ["C16.nonzero", "C16.stream_bound"]},
+    "C16": {"rules": ["C16."], "families": WIRE_AB + ["conformSend"], "slices": [SEND_SLICE], "level": "model_checking", "must_hit": ["C16.nonzero", "C16.stream_bound"]},
     "C19": {"rules": ["C19."], "families": WIRE_AB, "slices": [], "level": "exploration", "must_hit": []},
     "C17": {"rules": ["C17."], "families": WIRE_AB, "slices": [], "level": "exploration", "must_hit": ["C17.single_rst"]},
 }
